@@ -120,7 +120,14 @@ func Load(repo, goarch string) (*Ctx, error) {
 	}
 	sort.Strings(names)
 	for _, n := range names {
-		c.FuncSeq = append(c.FuncSeq, c.Funcs[n])
+		f := c.Funcs[n]
+		if f.Synthetic != "" && f.Synthetic != "package initializer" {
+			// wrappers, bound-method closures, thunks: resolved through unwrap, never analysed as callers
+			delete(c.name, f)
+			delete(c.Funcs, n)
+			continue
+		}
+		c.FuncSeq = append(c.FuncSeq, f)
 	}
 	return c, nil
 }
